@@ -299,7 +299,8 @@ pub fn get_best_move(
                 // if we have not found a move to send back, send back the best move as determined by the order_heuristic
                 // this can happen on very short time control situations
                 if best_move.is_none() {
-                    tx.send(moves[0].clone()).unwrap();
+                    // the receiver may already be gone, nothing left to do in that case
+                    let _ = tx.send(moves[0].clone());
                 }
                 return;
             }
@@ -324,7 +325,10 @@ pub fn get_best_move(
                 //alpha raised, remember this line as the pv
                 alpha = evaluation;
                 best_move = Some(mov.clone());
-                tx.send(mov.clone()).unwrap();
+                if tx.send(mov.clone()).is_err() {
+                    // the receiving side has played its move and hung up, stop searching
+                    return;
+                }
                 search_info.set_principle_variation();
                 send_search_info(&search_info, cur_depth, evaluation, start);
             }
